@@ -280,6 +280,16 @@ func tryReplay(repoDir, workDir string, fr *FuncResult, o *Obligation) *replayOu
 			return out
 		}
 	}
+	if out.Test == "" {
+		// no (candidate) model could be read: the enumeration part of the test still runs
+		if src, err := renderReplay(spec, map[string]interface{}{}, nil); err == nil {
+			out.Test = src
+			out.Note = "no solver model available; enumeration only"
+			res, confirmed := runReplayTest(repoDir, workDir, src)
+			out.Output = res
+			out.Confirmed = confirmed
+		}
+	}
 	return out
 }
 
